@@ -46,6 +46,16 @@ Example C20_example_pinned_shape_hangs :
   construct_gen (mkShape true WaitForever false) [mkFe FSend false false; mkFe FRecvCtrlAddr false false] (mkH SOk SOk SFail SOk SOk) = OHangs.
 Proof. reflexivity. Qed.
 
+(* the server side of "unknown context id": answered by closing the connection - the client's constructor then raises
+   (it would wait for ever for an answer that never comes if the server just carried on, as it once did) *)
+Theorem C20_unknown_context_is_answered_by_closing :
+  forall s i p, up s = true -> ctx_get (contexts s) i = None -> snd (serve s (mkSession (RWorkerCtx i) p)) = Closed.
+Proof. intros s i p U H. rewrite (unknown_context_harmless s i p H). rewrite U. reflexivity. Qed.
+
+Theorem C20_refuted_if_an_unknown_context_is_not_answered :
+  exists f, unknown_ctx_closes f = false /\ snd (serve_f f srv0 (mkSession (RWorkerCtx 7) PComplete)) = NoReply.
+Proof. exists (mkSF true true true false true true true). split; reflexivity. Qed.
+
 Print Assumptions C20_spec_never_hangs.
 Print Assumptions C20_spec_returns_only_after_a_complete_handshake.
 Print Assumptions C20_remote_constructor_refines_spec.
@@ -53,3 +63,5 @@ Print Assumptions C20_remote_constructor_never_hangs.
 Print Assumptions C20_handshake_program_complete.
 Print Assumptions C20_local_kinds_wait_for_identity_or_death.
 Print Assumptions C20_cut_message_fails_the_step.
+Print Assumptions C20_unknown_context_is_answered_by_closing.
+Print Assumptions C20_refuted_if_an_unknown_context_is_not_answered.
